@@ -12,7 +12,8 @@ RULE = ('Same generator family as C04 (limits often not binding, chains hanging 
         'or released task is outstanding) the number of tasks inside run() must reach min(max_workers, submitted-unfinished); not '
         'reaching it counts only after >= 10 further idle polling rounds and >= 20 s (normal: < 50 ms). Non-trivial = a resting '
         'point where a task unblocked by the previous completion batch is running, or where a queued task took a freed slot. '
-        'Distinct = hash of (engine, spec). Engine fork+stagger: k = 6-8 gated tasks fill max_workers with up to k-1 tasks queued behind them (or dependents of the first, '
+        'Distinct = hash of (engine, spec). Engine after-abort: run 1 aborts (continue_on_failure=False) with tasks of limited types in flight, run 2 in the same process (same or new Lab) must '
+        'again use all free capacity (same oracle on run 2). Engine fork+stagger: k = 6-8 gated tasks fill max_workers with up to k-1 tasks queued behind them (or dependents of the first, '
         'with spare slots); a helper thread releases the k one by one every 0.4 s - the first optionally dies outright - while the runner is polled with the 0.5 s '
         'timeout Lab itself uses; just before each release (from the third on) the number of queued tasks inside run() is compared with the capacity freed by the '
         'steps released at least 0.4 s earlier (normal latency < 50 ms). Violation only if the count falls short at EVERY sampling instant (>= 4, spanning >= 1.2 s) '
@@ -130,16 +131,66 @@ def check_stagger(spec: dict) -> core.CaseResult:
     return core.CaseResult(findings=findings, nontrivial=True, labels=tuple(labels), summary=obs.summary())
 
 
+def abort_spec(backend: str):
+    """Run 1 aborts (continue_on_failure=False, a failing task) while tasks of max_parallel-limited types are still in flight;
+    run 2 (same Lab object or a new one, same process) requests other tasks of those types."""
+    from hypothesis import strategies as st
+
+    @st.composite
+    def gen(draw):
+        k = draw(st.integers(3, 7))
+        nodes = [{'id': 0, 'type': 'NN', 'name': 'n0', 'mode': 'raise:ValueError', 'read': True, 'payload': None, 'deps': {'s': None}}]
+        for i in range(1, k + 1):
+            nodes.append({'id': i, 'type': draw(st.sampled_from(['N1', 'N2', 'N2', 'N3'])), 'name': f'n{i}', 'mode': 'ok', 'read': True, 'payload': i,
+                          'deps': {'s': None}})
+        first = sorted(set(draw(st.lists(st.integers(1, k), min_size=1, max_size=k))))
+        second = sorted(set(draw(st.lists(st.integers(1, k), min_size=2, max_size=k))))
+        order = draw(st.permutations([0] + first))
+        return {'nodes': nodes, 'requested': [{'ref': i, 'fresh': False} for i in order],
+                'lab': {'backend': backend, 'max_workers': draw(st.sampled_from([2, 3, 4, None])), 'continue_on_failure': False, 'bust_cache': False,
+                        'storage': draw(st.sampled_from(['local', 'none'])), 'displays': False, 'context': {}},
+                'pre_cached': [], 'schedule': draw(st.lists(st.integers(0, 7), max_size=12)),
+                'second': {'same_lab': draw(st.booleans()), 'bust': False, 'requested': second}}
+    return gen()
+
+
+def check_after_abort(spec: dict) -> core.CaseResult:
+    from pbt import dagrun
+    second = spec['second']
+    obs = dagrun.execute_case(spec, second=second)
+    ex1 = oracles.expect_for(spec, obs)
+    findings = []
+    nt = False
+    if obs.second is not None:
+        spec2 = {**spec, 'requested': [{'ref': i, 'fresh': False} for i in second['requested']], 'lab': {**spec['lab'], 'continue_on_failure': True}}
+        ex2 = oracles.expect_second(spec, obs, ex1, second)
+        o2 = obs.second
+        if o2.outcome is None or getattr(o2, 'timeout', False):
+            findings.append(core.Finding('C05:run-after-aborted-run:run-did-not-terminate', oracles.exc_text(o2.exc) if o2.exc is not None else ''))
+        else:
+            f2, nt = oracles.c05_maximal(spec2, o2, ex2, dagprop.CPU)
+            findings += [core.Finding(f.signature.replace('C05:', 'C05:run-after-aborted-run:'), f.detail) for f in f2]
+            if o2.outcome == 'raise' and isinstance(o2.exc, BaseException) and type(o2.exc).__name__ == 'HarnessTimeout':
+                findings.append(core.Finding('C05:run-after-aborted-run:run-did-not-terminate', oracles.exc_text(o2.exc)))
+    labels = [f'backend={spec["lab"]["backend"]}', 'after-abort', f'run1={obs.outcome}', f'second:same_lab={second["same_lab"]}']
+    return dagprop.result(obs, findings, obs.outcome == 'raise' and obs.second is not None, labels, hang_is_violation=True, prop='C05')
+
+
 def plan(tier: str) -> list[dict]:
     q = tier == 'quick'
     jobs = list(dagprop.std_plan(tier, controlled=(8, 150, 2500), serial=(1, 40, 800), fork=(0, 0, 0), spawn=(0, 0, 0),
                                  gated_fork=(4, 12, 400), gated_spawn=(1, 3, 60))) + dagprop.exhaustive_jobs(tier, 4)
     jobs += [{'engine': 'executor-machine', 'n': 12 if q else 400, 'steps': 14 if q else 30, 'hashseed': i} for i in range(2)]
+    jobs += [{'engine': 'after-abort:controlled', 'n': 80 if q else 2500, 'hashseed': 5}, {'engine': 'after-abort:fork', 'n': 8 if q else 300, 'hashseed': 6}]
     jobs += [{'engine': 'fork+stagger', 'n': 6 if q else 60, 'hashseed': 3 + i} for i in range(1 if q else 2)]
     return jobs
 
 
 def run_job(rec: core.Recorder, job: dict, seed: int) -> None:
+    if job['engine'].startswith('after-abort:'):
+        b = job['engine'].split(':')[1]
+        core.run_hypothesis(rec, job['engine'], abort_spec(b), check_after_abort, max_examples=job['n'], seed=seed, shrink=(b == 'controlled'))
+        return
     if job['engine'] == 'fork+stagger':
         core.run_hypothesis(rec, 'fork+stagger', stagger_strategy(), check_stagger, max_examples=job['n'], seed=seed, shrink=False)
         return
@@ -158,4 +209,6 @@ def run_job(rec: core.Recorder, job: dict, seed: int) -> None:
 def replay(record: dict) -> core.CaseResult:
     if 'stagger' in record['case']:
         return check_stagger(record['case'])
+    if 'second' in record['case']:
+        return check_after_abort(record['case'])
     return check(record['case'])
